@@ -45,6 +45,16 @@ func NewLocalStore(dir string, opt StoreOptions) (LocalStore, error) {
 	return LocalStore{Base: dir, Opt: opt, converters: opt.converters()}, nil
 }
 
+// walkRoot returns the directory to walk for Verify and Prune. The store can be
+// given as a symlink to the directory, which filepath.Walk wouldn't follow: it'd
+// visit nothing and report success.
+func (s LocalStore) walkRoot() string {
+	if resolved, err := filepath.EvalSymlinks(s.Base); err == nil {
+		return resolved
+	}
+	return s.Base
+}
+
 // GetChunk reads and returns one (compressed!) chunk from the store
 func (s LocalStore) GetChunk(id ChunkID) (*Chunk, error) {
 	_, p := s.nameFromID(id)
@@ -127,7 +137,7 @@ func (s LocalStore) Verify(ctx context.Context, n int, repair bool, w io.Writer)
 
 	// Go trough all chunks underneath Base, filtering out other files, then feed
 	// the IDs to the workers
-	err := filepath.Walk(s.Base, func(path string, info os.FileInfo, err error) error {
+	err := filepath.Walk(s.walkRoot(), func(path string, info os.FileInfo, err error) error {
 		// See if we're meant to stop
 		select {
 		case <-ctx.Done():
@@ -172,7 +182,7 @@ func (s LocalStore) Verify(ctx context.Context, n int, repair bool, w io.Writer)
 // of chunks
 func (s LocalStore) Prune(ctx context.Context, ids map[ChunkID]struct{}) error {
 	// Go trough all chunks underneath Base, filtering out other directories and files
-	err := filepath.Walk(s.Base, func(path string, info os.FileInfo, err error) error {
+	err := filepath.Walk(s.walkRoot(), func(path string, info os.FileInfo, err error) error {
 		// See if we're meant to stop
 		select {
 		case <-ctx.Done():
